@@ -13,6 +13,7 @@ type Lexer struct {
 	readPosition int  // current reading position in input (after current char)
 	ch           byte // current char under examination
 	inside       bool
+	comment      bool // between the <%# and the %> of a comment tag
 	curLine      int
 }
 
@@ -57,6 +58,15 @@ func (l *Lexer) nextInsideToken() token.Token {
 	l.skipWhitespace()
 	// a token is on the line where it starts, whatever it spans and whatever follows it
 	line := l.curLine
+
+	if l.comment && (l.ch == '"' || l.ch == '`' || l.ch == '#') {
+		// the text of a comment tag is not code: a quote or a # in it opens
+		// nothing that could hide the end of the tag
+		tok = l.newToken(token.ILLEGAL)
+		tok.LineNumber = line
+		l.readChar()
+		return tok
+	}
 
 	switch l.ch {
 	case '=':
@@ -116,6 +126,7 @@ func (l *Lexer) nextInsideToken() token.Token {
 	case '%':
 		if l.peekChar() == '>' {
 			l.inside = false
+			l.comment = false
 			l.readChar()
 			tok = token.Token{Type: token.E_END, Literal: "%>", LineNumber: l.curLine}
 			break
@@ -128,6 +139,7 @@ func (l *Lexer) nextInsideToken() token.Token {
 			switch l.peekChar() {
 			case '#':
 				l.readChar()
+				l.comment = true
 				tok = token.Token{Type: token.C_START, Literal: "<%#", LineNumber: l.curLine}
 			case '=':
 				l.readChar()
